@@ -1663,6 +1663,13 @@ def store_counts(root):
         if isinstance(n, (ast.Name, ast.Subscript, ast.Attribute)) and isinstance(getattr(n, "ctx", None), (ast.Store, ast.Del)):
             k = _target_text(n)
             out[k] = out.get(k, 0) + 1
+        elif isinstance(n, ast.alias) and n.name != "*":
+            k = (n.asname or n.name).split(".")[0]
+            out[k] = out.get(k, 0) + 1
+        elif isinstance(n, (ast.FunctionDef, ast.AsyncFunctionDef, ast.ClassDef)) and n is not root:
+            out[n.name] = out.get(n.name, 0) + 1
+        elif isinstance(n, ast.ExceptHandler) and n.name:
+            out[n.name] = out.get(n.name, 0) + 1
     return out
 
 
